@@ -46,7 +46,7 @@ func TestIndexStability(t *testing.T) {
 		origins := []string{"a.example", "b.example", "shares-key-with-a.example"}
 		// the two origins with DIFFERENT index keys may be look-alikes: whatever normalisation, truncation or prefix
 		// matching happened to a name on its way to the index key shows as the wrong blinded request key / ID
-		nameKind := gen.Uniform(t, 7, "names")
+		nameKind := gen.Uniform(t, 10, "names")
 		switch nameKind {
 		case 1:
 			origins[1] = origins[0] + "\x00eu" // embedded NUL, the part before it is registered too
@@ -65,8 +65,14 @@ func TestIndexStability(t *testing.T) {
 			}
 		case 6:
 			origins[1] = " " + origins[0]
+		case 7, 8, 9:
+			la := gen.LookAlikes(origins[0])
+			origins[1] = gen.Pick(t, la, "lookAlike")
+			if origins[1] == origins[2] {
+				origins[1] = "b.example"
+			}
 		}
-		s.Class([]string{"names:plain", "names:embedded-NUL-extension", "names:trailing-dot", "names:upper-case", "names:block-boundary", "names:drawn-and-its-prefix", "names:leading-space"}[nameKind])
+		s.Class([]string{"names:plain", "names:embedded-NUL-extension", "names:trailing-dot", "names:upper-case", "names:block-boundary", "names:drawn-and-its-prefix", "names:leading-space", "names:look-alike", "names:look-alike", "names:look-alike"}[nameKind])
 		_ = iss.AddOriginWithIndexKey(origins[0], mkKey(idxA))
 		_ = iss.AddOriginWithIndexKey(origins[1], mkKey(idxB))
 		_ = iss.AddOriginWithIndexKey(origins[2], mkKey(idxA))
@@ -137,6 +143,7 @@ func TestIndexStability(t *testing.T) {
 		}
 		for ci, secret := range secrets {
 			client := type3.NewRateLimitedClientFromSecret(secret)
+			var prevBlind []byte
 			for oi, origin := range origins {
 				runs := rapid.IntRange(2, 4).Draw(t, "runs")
 				for r := 0; r < runs; r++ {
@@ -148,7 +155,13 @@ func TestIndexStability(t *testing.T) {
 						blind = bytes.Repeat([]byte{0xff}, 48)
 					case 2:
 						blind = append([]byte{1}, gen.Bytes(t, 55, 55, "wideBlind")...)
+					case 3:
+						// the previous blind of this client plus the group order: another blind, the same residue mod N
+						if prevBlind != nil {
+							blind = new(big.Int).Add(new(big.Int).SetBytes(prevBlind), elliptic.P384().Params().N).Bytes()
+						}
 					}
+					prevBlind = blind
 					chal, nonce := gen.Challenge().Draw(t, "challenge"), gen.Bytes32().Draw(t, "nonce")
 					st, err := client.CreateTokenRequest(chal, nonce, blind, iss.TokenKeyID(), iss.TokenKey(), origin, iss.NameKey())
 					if err != nil {
